@@ -217,6 +217,7 @@ def build_item(repo, unit, ex, canary, log):
     rewritten = text
     inserts = []   # (offset, order, id, text)
     seq = 0
+    lost = []
     if ex.kind == 'fn':
         shape = rscan.FnShape(rewritten)
         toks = shape.toks
@@ -234,12 +235,20 @@ def build_item(repo, unit, ex, canary, log):
                 off = shape.body_open + 1
             elif sec[0] == 'loop':
                 if sec[1] >= len(shape.loops):
-                    raise ScanError('lost anchor: %s has no loop %d' % (where, sec[1]))
+                    # the loop a ghost splice belongs to is gone: drop the splice (dropping ghost text can only
+                    # make verification fail, never pass) and mark the unit degraded -- the check then needs a
+                    # concrete failing input before it reports anything
+                    lost.append('%s: no loop %d for splice %s' % (where, sec[1], sid))
+                    continue
                 lp = shape.loops[sec[1]]
                 off = {'invariant': lp['open'], 'body-start': lp['open'] + 1, 'body-end': lp['close'],
                        'before': lp['start'], 'after': lp['end']}[sec[2]]
             else:
-                st = shape.find_stmt(sec[2], sec[3])
+                try:
+                    st = shape.find_stmt(sec[2], sec[3])
+                except ScanError:
+                    lost.append('%s: no statement matching /%s/ for splice %s' % (where, sec[2], sid))
+                    continue
                 off = st[0] if sec[1] == 'before' else st[1]
             if sec[0] != 'contract' and not (sec[0] == 'loop' and sec[2] == 'invariant'):
                 for chunk in _top_level_chunks(body):
@@ -280,7 +289,7 @@ def build_item(repo, unit, ex, canary, log):
         pre = '#[verifier::external_body]\n'
         final = pre + final[:bo] + '{ unimplemented!() }'
         spans = [(a + len(pre), b + len(pre), 'assumed:' + sid, body) for a, b, sid, body in spans if b <= bo]
-    info = dict(name=ex.name, kind=ex.kind, impl=ex.impl, file=ex.file, stub=getattr(ex, 'stub', False),
+    info = dict(name=ex.name, kind=ex.kind, impl=ex.impl, file=ex.file, stub=getattr(ex, 'stub', False), lost_splices=lost,
                 from_unit=getattr(ex, 'from_unit', None),
                 src_range=[item.start, item.end],
                 src_line=src.count('\n', 0, item.start) + 1,
